@@ -435,13 +435,17 @@ def run(eng: Engine, ck: Check):
     if walk:
         cur = unparse(walk[0].target.elts[0])
         files = unparse(walk[0].target.elts[2])
-        skips = []
-        for n in walk_local(walk[0]):
-            if isinstance(n, ast.If) and n.body and isinstance(n.body[0], ast.Continue) and parent(n) is walk[0]:
-                m_ = pat.match(expand_aliases(sd, n.test), pat.compile_pattern(f'any($c.is_parent_of($a) for $c in {chp})')[0])
-                if m_ is not None and cur in m_['a'] and 'abspath' in m_['a']:
-                    skips.append(n)
-        facts['a directory below one of the child shares is skipped (absolute path compared with is_parent_of)'] = len(skips) == 1
+        # every item is built only for a directory that is below none of the child shares (a `continue`, or the body under the negation)
+        built = [x for x in calls_in(walk[0]) if call_name(x) == 'SharedItem']
+        skipped_ok = bool(built)
+        for x in built:
+            hit = False
+            for e_, pol_, _ in expanded_guards(eng, sd, x):
+                m_ = pat.match(e_, pat.compile_pattern(f'any($c.is_parent_of($a) for $c in {chp})')[0])
+                if m_ is not None and not pol_ and cur in m_['a'] and 'abspath' in m_['a']:
+                    hit = True
+            skipped_ok = skipped_ok and hit
+        facts['a directory below one of the child shares is skipped (absolute path compared with is_parent_of)'] = skipped_ok
         rel = [bd for _, bd in pfind(walk[0], f'$s = os.path.relpath({cur}, {sdp}.absolute_path)')]
         facts['the sub-directory is the path relative to the scanned directory'] = len(rel) == 1
         items = [x for x in calls_in(walk[0]) if call_name(x) == 'SharedItem']
